@@ -21,11 +21,16 @@ Property theorems (namespace Gms.C27), for ALL well-formed values (nil, Go integ
   for `INSERT` and `INSERT IGNORE`.
 * `strict_rejects_iff`, `ignore_never_rejects`, `ignore_warns_iff` — the policy itself, unguarded.
 * the full statements are FALSE for the unchanged code: `finding_*` give concrete witnesses for each region.
+* binary strings (`[]byte`; Gms/Model/StoreBin.lean, Gms/Lemmas/StoreBinL.lean) into the integer types and
+  BIT: `binary_exact_or_reported` (full strength), `binary_idem`, `binary_strict_never_silently_different`
+  (unguarded), `binary_insert_acceptable_partial`, `finding_binary_out_of_range_stored_as_zero`; facts
+  `facts_match_kinds`, `facts_match_bytes_branch`, `facts_match_binary`.
 -/
 import Gms.Model.Store
 import Gms.Model.StoreStr
 import Gms.Lemmas.StoreIdem
 import Gms.Lemmas.StoreStrL
+import Gms.Lemmas.StoreBinL
 import Gms.Generated.C27
 
 namespace Gms.Store
@@ -49,12 +54,57 @@ def clampRowOk (tbl : List Nat) (row : String × Int × Nat × Bool × Int × Na
     (convertInt it (.d (-big) 0) == ⟨.int tv, tf, if tok then .none else .fatal⟩)
   | _, _, _ => false
 
+/-- one cell of the run-time table of binary strings agrees with the model: `Convert([]byte)` of the compiled code -/
+def binCellOk (tbl : List Nat) (it : ITy) (cell : List Nat × Int × Nat × Bool) : Bool :=
+  let (bytes, v, f, ok) := cell
+  match flagOfNat tbl f with
+  | some f => convertIntB it (bytes.map UInt8.ofNat) == ⟨.int v, f, if ok then .none else .fatal⟩
+  | none => false
+
+def binRowOk (tbl : List Nat) (row : String × List (List Nat × Int × Nat × Bool)) : Bool :=
+  match ITy.ofName? row.1 with
+  | some it => row.2.all (binCellOk tbl it)
+  | none => false
+
 end Gms.Store
 
 namespace Gms.C27
 open Gms.Num Gms.Conv Gms.Store
 
 /-! ### Obligations over the regenerated facts -/
+
+/-- the Go kinds the two 64-bit converters dispatch on. The model covers nil, the ten integer kinds,
+`*apd.Decimal`, `string`, `[]byte` (Gms/Model/StoreBin.lean) and `bool` (generated as the integers 0 / 1);
+`time.Time`, `float32`, `float64` are outside the model (props/C27.json). A kind added to or removed
+from the dispatch breaks this obligation. -/
+theorem facts_match_kinds :
+    Gms.Generated.C27.converterKinds = [
+      ("convertToInt64", ["time.Time", "int", "int8", "int16", "int32", "int64", "uint", "uint8", "uint16", "uint32", "uint64",
+        "float32", "float64", "*apd.Decimal", "[]byte", "string", "bool", "nil", "default"]),
+      ("convertToUint64", ["time.Time", "int", "int8", "int16", "int32", "int64", "uint", "uint8", "uint16", "uint32", "uint64",
+        "float32", "float64", "*apd.Decimal", "[]byte", "string", "bool", "nil", "default"])] := by decide
+
+/-- the `[]byte` branch of `convertToInt64` / `convertToUint64`: the value is parsed by
+`strconv.ParseInt / ParseUint` (base 16, 64 bits) from its hex text — the range check of the signed
+parse is what refuses `2^63 … 2^64-1` — and any parse error yields `0, InRange, ErrInvalidValue`:
+the branch `convertToInt64B` / `convertToUint64B` transliterate. `ConvertRound` hands anything but a
+Go string to `Convert`. -/
+theorem facts_match_bytes_branch :
+    Gms.Generated.C27.bytesBranch = [
+      ("convertToInt64", "strconv.ParseInt(hex.EncodeToString(v), 16, 64)",
+        ["if err != nil", "return 0, sql.InRange, sql.ErrInvalidValue.New(v, t.String())", "return i, sql.InRange, nil"]),
+      ("convertToUint64", "strconv.ParseUint(hex.EncodeToString(v), 16, 64)",
+        ["if err != nil", "return 0, sql.InRange, sql.ErrInvalidValue.New(v, t.String())", "return i, sql.InRange, nil"])] ∧
+    Gms.Generated.C27.roundDefers = ("_, isStr := v.(string)", "!isStr", "return t.Convert(ctx, v)") := by decide
+
+/-- what the *compiled* `Convert` returns (value, flag, error) for a table of binary strings — empty,
+one to ten bytes, the 8-byte strings with the top bit set, leading zero bytes — equals the model's
+`convertIntB`, for each of the ten integer types. -/
+theorem facts_match_binary :
+    Gms.Generated.C27.binTable.map (fun r => r.1) = ITy.all.map ITy.name ∧
+    (∀ row ∈ Gms.Generated.C27.binTable, row.2.length ≥ 15) ∧
+    ∀ row ∈ Gms.Generated.C27.binTable, binRowOk Gms.Generated.C27.flagValues row = true := by
+  decide
 
 /-- `sql.ConvertInRange` values and, for each of the ten integer types, what the *compiled* `Convert`
 returns for `+(10^26-1)` and `-(10^26-1)` (value, flag, error) equal the model's `convertInt` — including the
@@ -692,5 +742,265 @@ example : strNum [32, 45, 52, 50, 32] = some (-42) ∧ inI64 (-42) ∧ ¬ unsign
     insertStr false .i16 [32, 45, 52, 50, 32] = .stored (.int (-42)) false ∧
     strNum [49, 50, 97] = none ∧ ¬ sign_only_or_empty_string_as_zero (.int .i16) (.s [49, 50, 97]) ∧
     insertStr true .i16 [49, 50, 97] = .stored (.int 12) true := by decide
+
+/-! ### binary strings (`[]byte`) written into integer / BIT columns -/
+
+theorem binLimit_le (it : ITy) : binLimit it ≤ maxU64 ∧ it.hi ≤ binLimit it := by
+  cases it <;> simp [binLimit, maxU64, maxI64, ITy.hi, ITy.unsigned, ITy.bits]
+
+/-- a refusal (fatal error) is what the Spec demands of a value that is not storable -/
+theorem refused_acceptable (t : Ty) (x : Int × Nat) (v : Stored) (f : Flag)
+    (hs : t.storable (target t x) = false) : Acceptable t x ⟨v, f, .fatal⟩ :=
+  ⟨fun h _ => (by rw [hs] at h; cases h), fun h _ => (by rw [hs] at h; cases h),
+   fun _ => ⟨by simp [conversionOk], Or.inl rfl⟩⟩
+
+theorem int_not_storable (it : ITy) (n : Int) (h : n > it.hi) :
+    Ty.storable (.int it) (target (.int it) (n, 0)) = false := by
+  obtain ⟨htg, hst, _⟩ := int_spec_unfold it n 0
+  rw [htg, rha_scale_zero] at *
+  cases hs : Ty.storable (.int it) n
+  · rfl
+  · have := hst.1 hs; omega
+
+theorem bit_not_storable (n : Nat) (c : Int) (h : c > 2 ^ n - 1) :
+    Ty.storable (.bit n) (target (.bit n) (c, 0)) = false := by
+  have htg : target (.bit n) (c, 0) = c := by simp [target, Ty.scale, target_int, rha_scale_zero]
+  have : Ty.storable (.bit n) c = false := by
+    cases hs : Ty.storable (.bit n) c
+    · rfl
+    · simp only [Ty.storable, Ty.lo, Ty.hi, Bool.and_eq_true] at hs
+      have := of_decide_eq_true hs.2; omega
+  rw [htg]; exact this
+
+theorem binU_wf (bs : List UInt8) (h : (beVal bs : Int) ≤ maxU64) : (Val.u (beVal bs)).WF := by
+  simp only [Val.WF, inU64]; omega
+
+/-- **C27 for binary strings, `Convert` level — full strength, no region.** For all ten integer types
+and BIT(n), and EVERY binary string: a non-empty binary string is stored as the big-endian integer it
+denotes, exactly, `InRange`, without error, when that integer is a value of the type; otherwise it is
+reported (flag ≠ InRange or an error) and what comes back is the nearest value or nothing. In
+particular an 8-byte string with the top bit set is never handed back as a negative number. The empty
+string is reported by the integer types. -/
+theorem binary_exact_or_reported (t : Ty) (ht : t.WF) (bs : List UInt8) :
+    acceptableConvertB t bs (convertB t bs) ≠ some false := by
+  cases t with
+  | int it =>
+    simp only [acceptableConvertB, convertB]
+    by_cases he : bs = []
+    · rw [if_pos he, binary_refused it bs (Or.inl he)]; simp [conversionOk]
+    · rw [if_neg he]
+      by_cases hr : (beVal bs : Int) ≤ binLimit it
+      · rw [binary_as_integer it bs he hr]
+        have hwf := binU_wf bs (by have := (binLimit_le it).1; omega)
+        have := int_acceptable it (.u (beVal bs)) hwf (beVal bs) 0 rfl
+          (by simp [unsigned_underflow_wraps, Val.negative])
+        simp only [convert] at this
+        rw [acceptNum_of _ _ _ (by simp) this]; simp
+      · rw [binary_refused it bs (Or.inr (by omega))]
+        rw [acceptNum_of _ _ _ (by simp)
+          (refused_acceptable _ _ _ _ (int_not_storable it _ (by have := (binLimit_le it).2; omega)))]
+        simp
+  | bit n =>
+    simp only [acceptableConvertB, convertB]
+    by_cases hl : bs.length ≤ 8
+    · rw [if_neg (by omega), bit_binary_as_integer n bs hl]
+      have := bit_acceptable n ht (.u (beVal bs)) (binU_wf bs (beVal_le8 bs hl)) (beVal bs) 0 rfl
+        (by simp only [bit_negative_reinterpreted, numOf]; omega)
+      simp only [convert] at this
+      rw [acceptNum_of _ _ _ (by simp) this]; simp
+    · by_cases hf : (beVal bs : Int) ≤ 2 ^ n - 1
+      · rw [if_pos ⟨by omega, hf⟩]; simp
+      · rw [if_neg (fun h => hf h.2)]
+        have : convertBit n (.s bs) = ⟨.null, .overflow, .fatal⟩ := by
+          simp only [convertBit]; rw [if_pos (by omega)]
+        rw [this, acceptNum_of _ _ _ (by simp) (refused_acceptable _ _ _ _ (bit_not_storable n _ (by omega)))]
+        simp
+  | dec p s c => simp [acceptableConvertB]
+  | year => simp [acceptableConvertB]
+
+/-- what `Convert` returns for a binary string without a fatal error is a fixed point of `Convert` -/
+theorem binary_idem (t : Ty) (ht : t.WF) (bs : List UInt8)
+    (hne : (convertB t bs).err ≠ .fatal) (hv : (convertB t bs).val ≠ .null) :
+    convert t (inject t (convertB t bs).val) = ⟨(convertB t bs).val, .inRange, .none⟩ := by
+  cases t with
+  | int it =>
+    simp only [convertB] at hne hv ⊢
+    by_cases h : bs = [] ∨ (beVal bs : Int) > binLimit it
+    · rw [binary_refused it bs h] at hne; exact absurd rfl hne
+    · have he : bs ≠ [] := fun e => h (Or.inl e)
+      have hr : (beVal bs : Int) ≤ binLimit it := by omega
+      rw [binary_as_integer it bs he hr] at hne hv ⊢
+      exact convert_idem_partial (.int it) trivial (.u (beVal bs))
+        (binU_wf bs (by have := (binLimit_le it).1; omega))
+        (by simp [unsigned_underflow_wraps, Val.negative]) hne hv
+  | bit n =>
+    exact convert_idem_partial (.bit n) ht (.s bs) trivial (by simp [unsigned_underflow_wraps]) hne hv
+  | dec p s c => simp [convertB] at hne
+  | year => simp [convertB] at hne
+
+theorem policy_eq_insert_u (ignore : Bool) (it : ITy) (n : Int) :
+    policy ignore (convertInt it (.u n)) =
+      (if ignore then insertIgnore (.int it) (.u n) else insertStrict (.int it) (.u n)) := by
+  have hnn : (convertInt it (.u n)).val ≠ .null := by
+    by_cases h1 : it = .i64
+    · subst h1; simp [convertInt]
+    · by_cases h2 : it = .u64
+      · subst h2; simp [convertInt]
+      · rw [convertInt_narrow it ⟨h1, h2⟩ _ (by simp)]
+        simp only
+        split
+        · simp
+        · split
+          · simp
+          · split <;> simp
+  cases ignore <;> cases hc : conversionOk (convertInt it (.u n)) <;>
+    simp [policy, insertStrict, insertIgnore, convert, hc, hnn]
+
+/-- the insert-level Spec of a numeric value, in terms of the number it denotes -/
+theorem acceptableOutcome_num (ignore : Bool) (t : Ty) (hty : t ≠ .year) (v : Val) (x : Int × Nat)
+    (hx : numOf v = some x) (o : Outcome) :
+    acceptableOutcome ignore t v o = some (acceptNumOutcome ignore t x o) := by
+  have hy : ¬ (t = .year ∧ 1 ≤ target t x ∧ target t x ≤ 99) := fun h => hty h.1
+  have hnn := numOf_ne_null hx
+  cases v with
+  | null => exact absurd rfl hnn
+  | s bs => simp [numOf] at hx
+  | i a =>
+    simp only [acceptableOutcome, hx, acceptNumOutcome]; rw [if_neg hy]
+    cases o <;> simp only <;> split <;> rfl
+  | u a =>
+    simp only [acceptableOutcome, hx, acceptNumOutcome]; rw [if_neg hy]
+    cases o <;> simp only <;> split <;> rfl
+  | d a b =>
+    simp only [acceptableOutcome, hx, acceptNumOutcome]; rw [if_neg hy]
+    cases o <;> simp only <;> split <;> rfl
+
+/-- **C27 for binary strings, insert level.** `INSERT` / `INSERT IGNORE` of EVERY binary string into a
+column of any of the ten integer types or BIT(n) leaves behind what the Spec demands: the integer the
+bytes denote, exactly, or — strict mode — nothing (the row is rejected), or — IGNORE — the nearest
+value with a warning; outside `binary_out_of_range_stored_as_zero` (integer columns, IGNORE only) and
+`ignore_stores_zero_not_nearest` (BIT beyond the width, IGNORE only). Strict mode: unguarded. -/
+theorem binary_insert_acceptable_partial (ignore : Bool) (t : Ty) (ht : t.WF) (bs : List UInt8)
+    (hreg : ignore = true → ¬ binary_out_of_range_stored_as_zero t bs)
+    (hz : ignore = true → ∀ n, t = .bit n → ¬ ignore_stores_zero_not_nearest t (.s bs)) :
+    acceptableBinOutcome ignore t bs (insertBin ignore t bs) ≠ some false := by
+  cases t with
+  | int it =>
+    simp only [acceptableBinOutcome, insertBin]
+    by_cases he : bs = []
+    · rw [if_pos he, binary_refused it bs (Or.inl he)]
+      cases ignore <;> simp [policy, conversionOk]
+    · rw [if_neg he]
+      by_cases hr : (beVal bs : Int) ≤ binLimit it
+      · have hwf := binU_wf bs (by have := (binLimit_le it).1; omega)
+        have hcr : ¬ ConvRegion (.int it) (.u (beVal bs)) := by
+          rintro (h | h | h)
+          · simp [unsigned_underflow_wraps, Val.negative] at h
+          · simp [bit_negative_reinterpreted] at h
+          · simp [year_decimal_beyond_int64_becomes_zero] at h
+        have hz' : ignore = true → ¬ ignore_stores_zero_not_nearest (.int it) (.u (beVal bs)) := by
+          intro _ ⟨hf, _, _⟩
+          have he' : (convert (.int it) (.u (beVal bs))).err = .none := by
+            simp only [convert]
+            by_cases h2 : it = .u64
+            · subst h2; rfl
+            · have hr' : (beVal bs : Int) ≤ maxI64 := by simpa [binLimit, h2] using hr
+              have e3 : convertToInt64 (.u (beVal bs)) = ⟨beVal bs, .inRange, .none⟩ := by
+                simp only [convertToInt64]; rw [if_neg (by omega)]
+              by_cases h1 : it = .i64
+              · subst h1; rw [convertInt_i64 _ (by simp), e3]
+              · rw [convertInt_narrow it ⟨h1, h2⟩ _ (by simp), e3]
+                simp only
+                by_cases a : (beVal bs : Int) > it.hi
+                · simp [a]
+                · by_cases b : (beVal bs : Int) < it.lo <;> simp [a, b]
+          rw [he'] at hf; cases hf
+        have key := insert_acceptable_partial ignore (.int it) trivial (.u (beVal bs)) hwf hcr hz'
+        rw [binary_as_integer it bs he hr, policy_eq_insert_u]
+        rw [acceptableOutcome_num ignore (.int it) (by simp) (.u (beVal bs)) (beVal bs, 0) rfl] at key
+        exact key
+      · have hgt : (beVal bs : Int) > binLimit it := by omega
+        rw [binary_refused it bs (Or.inr hgt)]
+        cases ignore with
+        | true => exact absurd ⟨he, hgt⟩ (hreg rfl)
+        | false =>
+          have := int_not_storable it (beVal bs) (by have := (binLimit_le it).2; omega)
+          simp [policy, conversionOk, acceptNumOutcome, this]
+  | bit n =>
+    simp only [acceptableBinOutcome, insertBin]
+    by_cases hl : bs.length ≤ 8
+    · rw [if_neg (by omega)]
+      have hc : convert (.bit n) (.s bs) = convert (.bit n) (.u (beVal bs)) := by
+        simp only [convert]; exact bit_binary_as_integer n bs hl
+      have hwf := binU_wf bs (beVal_le8 bs hl)
+      have hcr : ¬ ConvRegion (.bit n) (.u (beVal bs)) := by
+        rintro (h | h | h)
+        · simp [unsigned_underflow_wraps] at h
+        · simp only [bit_negative_reinterpreted, numOf] at h; omega
+        · simp [year_decimal_beyond_int64_becomes_zero] at h
+      have hz' : ignore = true → ¬ ignore_stores_zero_not_nearest (.bit n) (.u (beVal bs)) := by
+        intro hi ⟨hf, _, _⟩
+        exact hz hi n rfl ⟨by rw [hc]; exact hf, by simp, by simp⟩
+      have key := insert_acceptable_partial ignore (.bit n) ht (.u (beVal bs)) hwf hcr hz'
+      rw [acceptableOutcome_num ignore (.bit n) (by simp) (.u (beVal bs)) (beVal bs, 0) rfl] at key
+      have hio : (if ignore = true then insertIgnore (.bit n) (.s bs) else insertStrict (.bit n) (.s bs)) =
+          (if ignore = true then insertIgnore (.bit n) (.u (beVal bs)) else insertStrict (.bit n) (.u (beVal bs))) := by
+        simp [insertIgnore, insertStrict, hc]
+      rw [hio]; exact key
+    · by_cases hf : (beVal bs : Int) ≤ 2 ^ n - 1
+      · rw [if_pos ⟨by omega, hf⟩]; simp
+      · rw [if_neg (fun h => hf h.2)]
+        have hcv : convert (.bit n) (.s bs) = ⟨.null, .overflow, .fatal⟩ := by
+          simp only [convert, convertBit]; rw [if_pos (by omega)]
+        cases ignore with
+        | true => exact absurd ⟨by rw [hcv], by simp, by simp⟩ (hz rfl n rfl)
+        | false =>
+          have := bit_not_storable n (beVal bs) (by omega)
+          simp [insertStrict, hcv, conversionOk, acceptNumOutcome, this]
+  | dec p s c => simp [acceptableBinOutcome]
+  | year => simp [acceptableBinOutcome]
+
+/-- **never silently a different value (strict mode), binary strings — unguarded**: whatever a strict
+`INSERT` of a binary string stores in an integer column is the big-endian integer of its bytes. -/
+theorem binary_strict_never_silently_different (it : ITy) (bs : List UInt8) (x : Stored) (w : Bool)
+    (h : insertBin false (.int it) bs = .stored x w) :
+    bs ≠ [] ∧ storedCoeff (.int it) x = some (beVal bs : Int) ∧
+      Ty.storable (.int it) (beVal bs : Int) = true := by
+  have key := binary_insert_acceptable_partial false (.int it) trivial bs (by simp) (by simp)
+  rw [h] at key
+  simp only [acceptableBinOutcome] at key
+  by_cases he : bs = []
+  · rw [if_pos he] at key; simp at key
+  · rw [if_neg he] at key
+    refine ⟨he, ?_⟩
+    have htg : target (.int it) ((beVal bs : Int), 0) = (beVal bs : Int) := by
+      rw [(int_spec_unfold it _ 0).1, rha_scale_zero]
+    simp only [acceptNumOutcome, htg] at key
+    cases hs : Ty.storable (.int it) (beVal bs : Int)
+    · simp [hs] at key
+    · simp [hs] at key; exact ⟨key, rfl⟩
+
+/-- TINYINT UNSIGNED ← X'FFFFFFFFFFFFFFFF' under `INSERT IGNORE`: 0 is stored (with a warning) instead
+of the nearest value 255; a strict `INSERT` rejects the row, as it must. -/
+theorem finding_binary_out_of_range_stored_as_zero :
+    binary_out_of_range_stored_as_zero (.int .u8) [255, 255, 255, 255, 255, 255, 255, 255] ∧
+      insertBin true (.int .u8) [255, 255, 255, 255, 255, 255, 255, 255] = .stored (.int 0) true ∧
+      nearest (.int .u8) (target (.int .u8) (18446744073709551615, 0)) = 255 ∧
+      acceptableBinOutcome true (.int .u8) [255, 255, 255, 255, 255, 255, 255, 255]
+        (insertBin true (.int .u8) [255, 255, 255, 255, 255, 255, 255, 255]) = some false ∧
+      insertBin false (.int .u8) [255, 255, 255, 255, 255, 255, 255, 255] = .rejected ∧
+      insertBin false (.int .i64) [255, 255, 255, 255, 255, 255, 255, 255] = .rejected := by decide
+
+example : convertB (.int .i16) [1, 255] = ⟨.int 511, .inRange, .none⟩ ∧          -- X'01FF' = 511
+    convertB (.int .i16) [128, 0] = ⟨.int 32767, .overflow, .none⟩ ∧             -- X'8000' = 32768: clamped, reported
+    convertB (.int .i64) [127, 255, 255, 255, 255, 255, 255, 255] = ⟨.int 9223372036854775807, .inRange, .none⟩ ∧
+    convertB (.int .i64) [128, 0, 0, 0, 0, 0, 0, 0] = ⟨.int 0, .inRange, .fatal⟩ ∧   -- 2^63: refused
+    convertB (.int .u64) [255, 255, 255, 255, 255, 255, 255, 255] = ⟨.int 18446744073709551615, .inRange, .none⟩ ∧
+    convertB (.int .i8) [0, 0, 0, 0, 0, 0, 0, 0, 0, 7] = ⟨.int 7, .inRange, .none⟩ ∧   -- leading zero bytes are harmless
+    convertB (.bit 8) [1, 0] = ⟨.null, .overflow, .fatal⟩ ∧
+    insertBin false (.int .i16) [1, 255] = .stored (.int 511) false ∧
+    insertBin true (.int .i16) [128, 0] = .stored (.int 32767) true ∧
+    acceptableBinOutcome true (.int .i16) [128, 0] (insertBin true (.int .i16) [128, 0]) = some true ∧
+    ¬ binary_out_of_range_stored_as_zero (.int .i16) [128, 0] := by decide
 
 end Gms.C27
